@@ -316,7 +316,10 @@ def faults_for(sch, lines, root, rng, per_kind):
                             e = next(m for m in range(k, n)
                                      if lines[m].role == "close"
                                      and lines[m].node is lk.node)
-                        drop.update(range(k, e + 1))
+                        # definitions inside the dropped section stay (they
+                        # are global and may be used further down)
+                        drop.update(m for m in range(k, e + 1)
+                                    if lines[m].role != "define")
                         k = e
                 k += 1
             if not drop:
